@@ -274,6 +274,19 @@ def announced_items_missing(frame):
                 q += 8 + l2 + ((8 - l2 % 8) % 8)
         elif tag == b'\x42\x00\x0f' and buf[pos + 3] == 1:
             items += 1
+            if count is not None and items <= count:
+                # a request batch item consists of an operation and a
+                # payload (KMIP: both required); an announced item without
+                # payload is an item that is not there
+                q, qend = pos + 8, min(end, pos + 8 + ln)
+                has_payload = False
+                while qend - q >= 8:
+                    if buf[q:q + 3] == b'\x42\x00\x79':
+                        has_payload = True
+                    l2 = _s.unpack_from('!I', buf, q + 4)[0]
+                    q += 8 + l2 + ((8 - l2 % 8) % 8)
+                if not has_payload:
+                    return True
         pos += 8 + ln + ((8 - ln % 8) % 8)
     return count is not None and 0 < count <= 64 and items < count
 
